@@ -27,7 +27,7 @@ cd /verif || exit 2
 # supervision: bound the address space and the wall clock so that a runaway loop or allocation inside the code under
 # test ends this run as "inconclusive" instead of taking the machine down
 if [ "$tier" = "thorough" ]; then budget=14400; else budget=1500; fi
-( ulimit -v 41943040; exec timeout --signal=KILL "$budget" /verif/target/release/check "$prop" --tier "$tier" )
+( ulimit -S -v 41943040; exec timeout --signal=KILL "$budget" /verif/target/release/check "$prop" --tier "$tier" )
 code=$?
 case "$code" in
     0|1|2) exit "$code" ;;
